@@ -1439,7 +1439,10 @@ fn check_case(case: &Case, ctx: &mut CaseCtx<'_>) -> Result<(), String> {
                 h.crash_and_recover(r).await?;
             }
             for (oi, op) in phase.ops.iter().enumerate() {
-                let tag = format!("w{}_{}", pi, oi);
+                // every third operation of a phase writes the SAME bytes ("same"), locally or as a
+                // remote update: a write whose value equals what the node already holds is still a
+                // write with its own stamp (a shortcut keyed on the bytes would lose the stamp)
+                let tag = if oi % 3 == 2 { "same".to_string() } else { format!("w{}_{}", pi, oi) };
                 match op {
                     Op::Set { k } => {
                         let key = skey(*k);
